@@ -213,6 +213,14 @@ impl Scenario for C13S {
         if st.p_trunc > 0 || st.p_ctrunc > 0 {
             out.viol("oversized-retry:send", format!("a transmitted packet did not fit the buffer the receiver offers (MSG_TRUNC seen {} times, MSG_CTRUNC {} times)", st.p_trunc, st.p_ctrunc));
         }
+        // every descriptor that arrived with the messages has been handed to the program and dropped
+        // by now; one that is still open came along unasked (e.g. attached twice by a retry)
+        if blocked.iter().all(|b| b.label != "receiver" && b.label != "sender") {
+            let stray = sim::open_received_fds();
+            if !stray.is_empty() {
+                out.viol("stray-descriptor:recv", format!("{} descriptor(s) arrived with the message that no part of the value refers to and that nothing closes (ledger ids {:?}); send ok: {}", stray.len(), stray, send_ok));
+            }
+        }
         for pn in hist::panics() {
             out.viol(&hist::panic_sig(pn), format!("panic in [{}]: {} at {}", pn.label, pn.msg, pn.loc));
         }
